@@ -128,7 +128,9 @@ const entryplus3Baggage uint64 = 8 + // fileid
 	16 + // name_handle
 	8 // pointer
 
-// XXX inode locking order violated
+// Children with a smaller inode number than the directory cannot be locked
+// without violating the lock order (ascending inum); for those f is called
+// with a nil inode.
 func Apply(dip *inode.Inode, op *fstxn.FsTxn, start uint64,
 	dircount uint64, maxcount uint64,
 	f func(*inode.Inode, string, common.Inum, uint64)) bool {
@@ -155,6 +157,8 @@ func Apply(dip *inode.Inode, op *fstxn.FsTxn, start uint64,
 		if op.OwnInum(de.inum) {
 			own = true
 			ip = op.GetInodeUnlocked(de.inum)
+		} else if de.inum < dip.Inum {
+			ip = nil
 		} else {
 			ip = op.GetInodeInum(de.inum)
 
@@ -163,7 +167,7 @@ func Apply(dip *inode.Inode, op *fstxn.FsTxn, start uint64,
 		f(ip, de.name, de.inum, off)
 
 		// Release inode early, if this trans didn't own it before.
-		if !own {
+		if !own && ip != nil {
 			op.ReleaseInode(ip)
 		}
 
